@@ -233,6 +233,12 @@ def check(prop, tier, seed, budget=None):
             bad = re.findall(r"^- (\S+)", out, flags=re.M)
             errs = re.findall(r"^error: (.*)$", out, flags=re.M)[:10]
             broken.append({"obligation": "lake build " + " ".join(bad or cfg["lean_modules"]), "detail": errs})
+        # supplementary: concrete witnesses of every hypothesis bundle (Proofs/NonVac.lean imports most of the development; a failure here
+        # is recorded in the evidence, it is not an obligation of this property)
+        nv_rc, nv_out = lake_build(["Heathcliff.Proofs.NonVac"]) if not broken else (1, "skipped: an obligation of the property is already broken")
+        nv_src = strip_comments(open(os.path.join(LEAN, "Heathcliff", "Proofs", "NonVac.lean")).read())
+        if any(FORBIDDEN.search(l) for l in nv_src.split("\n")): nv_rc, nv_out = 1, "error: forbidden construct in NonVac.lean"
+        nonvac = "built (lake build Heathcliff.Proofs.NonVac)" if nv_rc == 0 else "NOT built: " + " | ".join(re.findall(r"^error: (.*)$", nv_out, flags=re.M)[:3] or [nv_out[-200:]])
         rc, out = cargo_build()
         if rc != 0:
             broken.append({"obligation": "harness build against /repo working tree (cargo)", "detail": re.findall(r"^error.*$", out, flags=re.M)[:10]})
@@ -297,6 +303,7 @@ def check(prop, tier, seed, budget=None):
             "checker_cmd": f"cd /verif/lean && lake build {' '.join(cfg['lean_modules'])} && lake env lean Heathcliff/Audit/{prop}.lean  (#print axioms on every property theorem; whitelist propext, Classical.choice, Quot.sound)",
             "trusted_base": cfg.get("trusted_base", []) + PROPS.COMMON_TRUSTED,
             "theorems": thms,
+            "nonvacuity_witnesses": nonvac,
             "evaluations": res.n, "distinct_nontrivial": len(res.nontrivial), "distinct": len(res.distinct),
             "rule": cfg.get("rule", "") + " A case is one line `fn args`; distinct = distinct line; non-trivial = the implementation did not refuse it, the spec makes a claim about it (not outside the documented domain) and its generator class is not marked trivial.",
             "samples": res.samples or ["(no correspondence cases: " + "; ".join(b["obligation"] for b in broken) + ")"],
@@ -362,6 +369,7 @@ def setup():
         if rc != 0: return 1
         rc, out = cargo_build(); print(out[-1500:])
         if rc != 0: return 1
+        rc, out = lake_build(["Heathcliff.Proofs.NonVac"]); print("non-vacuity witnesses:", "built" if rc == 0 else "NOT built (supplementary, not fatal)")
     return 0
 
 
